@@ -395,13 +395,23 @@ def run(tier: str, seed: int) -> Result:
     q = tier == "quick"
     cfgs = [("", 4 if q else 5, 1 if q else 2), ("A", 3 if q else 5, 2), ("B", 3 if q else 5, 2), ("AB", 3 if q else 4, 1 if q else 2),
             ("AC", 3 if q else 4, 2), ("ABC", 3 if q else 4, 1 if q else 2), ("BD", 3 if q else 4, 1 if q else 2),
-            ("B.D", 3 if q else 4, 1 if q else 2)]
+            ("B.D", 3 if q else 4, 1 if q else 2), ("debug:AB", 3 if q else 4, 1 if q else 2)]
     budget = 100.0 if q else 1500.0
     t_end = time.monotonic() + budget
     per_cfg = []
     for i, (sd, depth, bound) in enumerate(cfgs):
         left = max(5.0, (t_end - time.monotonic()) / (len(cfgs) - i))
-        st = explore_parallel(factory, (sd,), depth=depth, bound=bound, budget_s=left, split_depth=1)
+        from .. import world as _world
+
+        _world.DEFAULT_DEBUG[0] = sd.startswith("debug:")  # same exploration with debug logging requested on the connection
+        sd = sd.replace("debug:", "")
+        try:
+            st = explore_parallel(factory, (sd,), depth=depth, bound=bound, budget_s=left, split_depth=1)
+        finally:
+            was_debug = _world.DEFAULT_DEBUG[0]
+            _world.DEFAULT_DEBUG[0] = False
+        if was_debug:
+            sd = "debug:" + sd
         per_cfg.append({"outstanding_at_seed": sd, "depth": depth, "deviation_bound": bound, "executions": st.executions,
                         "states": st.states, "transitions": st.transitions, "time_capped": st.time_capped})
         for v in st.violations:
@@ -436,7 +446,10 @@ def run(tier: str, seed: int) -> Result:
 
 def replay(rp: dict[str, Any]) -> bool:
     d = rp["detail"]
-    h = factory(d["seed_calls"])
+    from .. import world as _world
+
+    _world.DEFAULT_DEBUG[0] = str(d["seed_calls"]).startswith("debug:")
+    h = factory(str(d["seed_calls"]).replace("debug:", ""))
     w = h.fresh()
     try:
         v: list[str] = []
